@@ -1,4 +1,3 @@
-/-! Flow: executable models (no Mathlib imports). -/
-namespace Solvor.Flow
-
-end Solvor.Flow
+import Solvor.Flow.Basic
+import Solvor.Flow.EK
+/-! Flow: executable models (no Mathlib imports).  `EK` = max_flow mirror (C08). -/
